@@ -307,8 +307,19 @@ def run_case(case):
             d = W.decode_payload(h["type"], b) if h is not None else None
             items.append([cid, "P", b.hex() if len(b) <= 64 else None, len(b),
                           __import__("hashlib").sha1(b).hexdigest(), d, h["type"] if h else None])
+    # the three places a module is registered (property C07's anchors), as connection numbers, read after run() has
+    # returned: module table, type -> subscriber index, logger set
+    tables = None
+    try:
+        def cid_of(m):
+            return getattr(m.conn, "cid", -1)
+        tables = dict(modules=sorted(cid_of(m) for s_, m in mm.modules.items() if s_ is not listen),
+                      subs={str(t): sorted(cid_of(m) for m in ms) for t, ms in mm.subscriptions.items() if len(ms)},
+                      loggers=sorted(cid_of(m) for m in mm.logger_modules))
+    except Exception as e:  # noqa: observation only
+        tables = dict(error=type(e).__name__ + ":" + str(e)[:100])
     return dict(crash=crash, items=items, unread_events=len(script.events), blocking_selects=script.blocking_selects,
-                effective=effective)
+                effective=effective, tables=tables)
 
 
 def main():
